@@ -61,3 +61,40 @@ impl Probe {
         env.storage().instance().get(&PKey::Log).unwrap_or(Vec::new(&env))
     }
 }
+
+/// Minimal application on the executable interface: validates through the interface's helper and
+/// panics on error, then performs its effect (an `executed` event shaped like the example's).
+pub mod miniapp {
+    use axelar_gateway::executable::AxelarExecutableInterface;
+    use soroban_sdk::{contract, contractimpl, contracttype, panic_with_error, Address, Bytes, Env, String, Symbol};
+
+    #[contracttype]
+    #[derive(Clone)]
+    pub enum MKey {
+        Gateway,
+    }
+
+    #[contract]
+    pub struct MiniApp;
+
+    #[contractimpl]
+    impl MiniApp {
+        pub fn __constructor(env: Env, gateway: Address) {
+            env.storage().instance().set(&MKey::Gateway, &gateway);
+        }
+    }
+
+    #[contractimpl]
+    impl AxelarExecutableInterface for MiniApp {
+        fn gateway(env: &Env) -> Address {
+            env.storage().instance().get(&MKey::Gateway).unwrap()
+        }
+
+        fn execute(env: Env, source_chain: String, message_id: String, source_address: String, payload: Bytes) {
+            Self::validate_message(&env, &source_chain, &message_id, &source_address, &payload)
+                .unwrap_or_else(|err| panic_with_error!(env, err));
+            env.events()
+                .publish((Symbol::new(&env, "executed"), source_chain, message_id, source_address), (payload,));
+        }
+    }
+}
